@@ -16,6 +16,7 @@
     Memory figures (products with type sizes) and the append-growth capacity are not modelled. *)
 From Ark Require Import Model.Base Model.Mask Model.Pool Model.Util Model.World Model.Run.
 From Ark Require Import Proofs.TableProofs Proofs.WF Proofs.StorageA Proofs.ViewProofs Properties.Common.
+From Ark Require Import Proofs.StorageD.
 
 Theorem C19_used_equals_rows : forall s, St s -> pool_len (w_pool s) = total_rows s.
 Proof. exact used_equals_rows. Qed.
@@ -59,6 +60,11 @@ Example C19_stats_vector :
   firstn 7 (stats_vec (exec small_cfg [[1; 1; 0]; [1; 2; 0; 1]; [0]; [11; 0]]%Z)) = [2; 3; 1; 0; 0; 0; 3]%Z.
 Proof. vm_compute. reflexivity. Qed.
 
-Definition C19_all := (C19_used_equals_rows, C19_total_is_used_plus_recycled, C19_size_le_capacity,
+(** Over histories (StorageD.v): the sum of the archetype sizes equals the number of rows (= used
+    entities) in every state reachable by the core operations, queries and filter creation: the
+    hypothesis [v_tables_listed] of the partial theorem is an invariant. *)
+Definition C19_sizes_sum_after_every_history := reachable_sizes_sum.
+
+Definition C19_all := (C19_sizes_sum_after_every_history, C19_used_equals_rows, C19_total_is_used_plus_recycled, C19_size_le_capacity,
   C19_archetypes_distinct, C19_archetype_sizes_le_rows, C19_archetype_sizes_sum_partial).
 Print Assumptions C19_all.
